@@ -1151,6 +1151,7 @@ static void run_line(char *line)
 			APPLY_ERRNO();
 			rc = cfg_parse_buf(CTX(1), t2);
 		} else if (!strcmp(w[0], "PF")) {
+			APPLY_ERRNO();
 			rc = cfg_parse(CTX(1), t2);
 		} else {
 			FILE *f = tmpfile();
@@ -1590,6 +1591,7 @@ static void run_line(char *line)
 		char *r;
 
 		NEEDCTX(1);
+		APPLY_ERRNO();	/* what errno an earlier call left behind is nothing a lookup looks at */
 		r = CTX(1)->path ? cfg_searchpath(CTX(1)->path, p) : NULL;
 		fputs("S ", obs);
 		puthex(r);
